@@ -139,7 +139,9 @@ def run(ctx):
                      'Storage::rollback_to_block'}
     gblocks = []
     for g, acc in UNCOND:
-        gblocks.append(P.call_sites(F, g)[0][0])
+        gs = P.call_sites(F, g)
+        if gs:                      # a missing guard was reported by r2 above
+            gblocks.append(gs[0][0])
     n = 0
     for bid, key, t in P.call_keys(F):
         if all(cfg.dominates(gb, bid) and gb != bid for gb in gblocks):
@@ -212,7 +214,7 @@ def run(ctx):
     CMb = ctx.body('check_if_response_is_matched')
     census_fns.requires(ctx, 'C01.r6', 'check_if_response_is_matched', r'^Err\(Status::InvalidReorgHeaders\)', r'arg1 < TakeWhile::count|TakeWhile::count\(.*\) > arg1',
                         'a reorg section longer than last-N is rejected (also when it starts at block 1)',
-                        'last_n = 3, start 15: reorg headers [1..14] accepted and all 14 kept in the prove state')
+                        'last_n = 3, start 15: reorg headers [1..14] accepted and all 14 kept in the prove state', some=True)
     census_fns.run(ctx, 'C01')
 
 
